@@ -600,6 +600,16 @@ def check_restart(ctx, cfg, ref, rr, image, crash_path, all_names, sig_base, bud
                 # restart (the point is not new), so neither the observable nor the stopping criteria of that iteration are
                 # evaluated: when that point is the one at which the uninterrupted run stopped, the restarted run goes on
                 ctx.probe("restart_extends_history_after_death_in_observable")
+            elif "closer than" in ref["stop_message"] and ref_final and ref_final[-1][0] in {x for x, _ in loaded} and _extends(final, ref_final, cfg):
+                # the uninterrupted run was stopped by a tolerance criterion at a point that the backup already held when the run
+                # died: the restarted run finds that point in the database, it is not a new iteration, the criterion is not
+                # evaluated there and the run goes on
+                ctx.violate(
+                    "C12.same_history", "MDO restart-continues-past-the-tolerance-stop-of-a-loaded-point",
+                    f"the uninterrupted run stopped on '{ref['stop_message'][:60]}' at {ref_final[-1][0]}, a point the loaded backup holds: the restarted run "
+                    f"(crash path {crash_path}) does not evaluate the criterion there and records {len(final)} entries instead of {len(ref_final)}; cfg={cfg}",
+                    fatal=False,
+                )
             elif budget_stop and not cfg.get("keep_counter_on_restart") and len(final) > len(ref_final) and same_history(final[: len(ref_final)], ref_final, cfg):
                 ctx.violate(
                     "C12.same_history", f"{cfg['kind']} reference-stopped-on-max_iter restarted-run-extends-history",
@@ -619,20 +629,43 @@ def _vals(c):
 
 
 def same_history(a, b, cfg):
-    """Exact for a single discipline; up to MDA round-off (rtol 1e-7) for MDF."""
+    """Exact for a single discipline; up to MDA round-off (rtol 1e-7) for MDF.
+
+    In MDF a restarted run starts its MDAs cold where the uninterrupted run starts them warm: new points carry round-off
+    level differences, which a gradient-based optimiser may amplify from one iteration to the next. Once an entry differs
+    at round-off level (below 1e-7), later and larger differences are that amplification, not a verdict.
+    """
     if cfg["formulation"] != "MDF":
         return a == b
-    if len(a) != len(b):
-        return False
     from numpy import allclose
 
+    round_off_seen = False
     for (xa, oa), (xb, ob) in zip(a, b):
+        if round_off_seen:
+            return True
         if len(xa) != len(xb) or not allclose(xa, xb, rtol=1e-7, atol=1e-9):
             return False
         if [n for n, _ in oa] != [n for n, _ in ob]:
             return False
         for (_, va), (_, vb) in zip(oa, ob):
             if va[1] != vb[1] or not allclose(_vals(va), _vals(vb), rtol=1e-7, atol=1e-9):
+                return False
+        if (xa, oa) != (xb, ob):
+            round_off_seen = True
+    return round_off_seen or len(a) == len(b)
+
+
+def _extends(final, ref_final, cfg):
+    """The restarted history holds the reference history (same points in order, at least the same outputs with the
+    same values) and possibly more."""
+    if len(final) < len(ref_final):
+        return False
+    for (xa, oa), (xb, ob) in zip(final, ref_final):
+        if xa != xb:
+            return False
+        da = dict(oa)
+        for n, v in ob:
+            if n not in da or not same_history([(xa, ((n, da[n]),))], [(xb, ((n, v),))], cfg):
                 return False
     return True
 
